@@ -104,7 +104,14 @@ JumpProgs ==
        P("jmp-rr", << Jump(Rss), Empty >>, <<"jump">>),
        P("jmp-pcrel", << Jump(Bin("+", Alias("PC", FALSE), Imm("r"))), Empty >>, <<"jump", "pc">>),
        P("jmp-cond", << If(Bin("&", Reg("P", "u", FALSE, FALSE), NumN(1)), << Jump(Rs), Empty >>) >>, <<"jump">>),
-       P("nojmp", << Set(Rd, Rs) >>, <<"jump", "none">>) >>
+       P("nojmp", << Set(Rd, Rs) >>, <<"jump", "none">>),
+       \* operands whose NAMES are not C identifiers (folded constants, explicit pairs) as jump target / address / data
+       P("jmp-negconst", << Jump(Un("-", NumN(4))), Empty >>, <<"jump", "const">>),
+       P("jmp-foldconst", << Jump(Bin("+", NumN(4), NumN(4))), Empty >>, <<"jump", "const">>),
+       P("ld-negconst", Obs(CastE(T(TRUE, 32), Load(TRUE, 32, Un("-", NumN(4))))), <<"load", "const">>),
+       P("ld-xpair", Obs(CastE(T(TRUE, 32), Load(TRUE, 32, XPair("R", 31, 30, FALSE)))), <<"load", "explicitpair">>),
+       P("st-negconst", << Store(FALSE, 32, Rs, Un("-", NumN(4))) >>, <<"store", "const">>),
+       P("st-addr-fold", << Store(FALSE, 32, Bin("+", NumN(16), NumN(4)), Rt) >>, <<"store", "const">>) >>
 
 Programs == IsaProgs \o ExplicitProgs \o ExplicitPairProgs \o AliasProgs \o ImmProgs \o MemProgs \o JumpProgs
 
